@@ -103,6 +103,8 @@ type orcEdge struct {
 	// InChain: declared inside a connection chain; Foreign/Inherited as for objects.
 	RefCount  int
 	InChain   bool
+	// HeadMap: a `(a -> b)[i].source-arrowhead: v {…}` style reference carries a map
+	HeadMap bool
 	Foreign   bool
 	Inherited bool
 }
@@ -269,6 +271,11 @@ func orcSnapOf(g *d2graph.Graph) *orcSnap {
 		for _, ref := range e.References {
 			if ref.MapKey != nil && len(ref.MapKey.Edges) > 1 {
 				ee.InChain = true
+			}
+			if ref.MapKey != nil && ref.MapKey.EdgeKey != nil && len(ref.MapKey.EdgeKey.Path) > 0 && ref.MapKey.Value.Map != nil {
+				if h := ref.MapKey.EdgeKey.Path[0].Unbox().ScalarString(); h == "source-arrowhead" || h == "target-arrowhead" {
+					ee.HeadMap = true
+				}
 			}
 			if ref.MapKey != nil {
 				// label set by an explicit `label` key (index reference or entry of the map)
